@@ -6,6 +6,7 @@ import (
 	"math/rand"
 	"net/url"
 	"path/filepath"
+	"reflect"
 	"regexp"
 	"strings"
 	"testing"
@@ -116,8 +117,106 @@ func domainOK(host string, domains []string) bool {
 
 type c13Config struct {
 	name     string
-	domains  []string
+	domains  []string // the allowed_redirect_domains strings AS CONFIGURED (what goes into the YAML file)
 	patterns []string
+	public   bool   // no client_secret: a public (PKCE) client
+	knobs    bool   // every other option of the client record switched on (found by reflection)
+	form     string // for the odd-form clients: the shape of the single entry
+	host     string // for the odd-form clients: the host name the entry was built from
+}
+
+// host names that start like loopback literals, the literals themselves, other spellings of the loopback
+// interface, and names under a configured domain that start like a literal
+var c13Loopbackish = []string{"127.0.0.1", "127.0.0.1.evil.com", "127.evil.com", "127.1", "127.0.0.1.example.com", "localhost", "localhost.evil.com",
+	"localhost.", "localhost.example.com", "[::1]", "[::1].evil", "[::ffff:127.0.0.1]", "[0:0:0:0:0:0:0:1]", "0.0.0.0", "0x7f.0.0.1", "2130706433", "ip6-localhost", "127.0.0.1.", "LOCALHOST"}
+
+// forms in which an operator may write an allowed_redirect_domains entry for host h
+var c13Forms = []struct {
+	name  string
+	build func(h string) string
+}{
+	{"url", func(h string) string { return "https://" + h }},
+	{"url-slash", func(h string) string { return "https://" + h + "/" }},
+	{"url-path", func(h string) string { return "https://" + h + "/oauth2/callback" }},
+	{"url-port", func(h string) string { return "https://" + h + ":8443" }},
+	{"url-http", func(h string) string { return "http://" + h + "/" }},
+	{"scheme-relative", func(h string) string { return "//" + h }},
+	{"upper", func(h string) string { return strings.ToUpper(h) }},
+	{"trailing-dot", func(h string) string { return h + "." }},
+	{"leading-dot", func(h string) string { return "." + h }},
+	{"spaces", func(h string) string { return " " + h + " " }},
+	{"wildcard", func(h string) string { return "*." + h }},
+	{"host-port", func(h string) string { return h + ":443" }},
+}
+
+// host names of different first letters and depths (a rewrite of the entry may depend on its characters)
+var c13FormHosts = []string{"shop.example.io", "ssh.example", "portal.corp.example.org", "test.example.net", "app.example.co", "https-gw.example.dev", "www.example.info"}
+
+func c13FormConfigs() []c13Config {
+	var out []c13Config
+	for hi, h := range c13FormHosts {
+		for fi, f := range c13Forms {
+			out = append(out, c13Config{name: fmt.Sprintf("form-%s-%d", f.name, hi), domains: []string{f.build(h)}, public: (hi+fi)%2 == 1, knobs: (hi+fi)%4 < 2, form: f.name, host: h})
+		}
+	}
+	return out
+}
+
+// redirect_uri strings aimed at one odd-form client: hosts derived from the entry and from the host it was built
+// from — the host, sub- and look-alike names, every truncation from the left (what a trimming rewrite may
+// leave), short truncations from the right, the decorated spellings, the entry verbatim
+func c13FormURLs(cf c13Config) []string {
+	h, e := cf.host, cf.domains[0]
+	seen := map[string]bool{}
+	var hosts []string
+	add := func(x string) {
+		if x != "" && !seen[x] {
+			seen[x] = true
+			hosts = append(hosts, x)
+		}
+	}
+	add(h)
+	add("a." + h)
+	add("evil" + h)
+	add(strings.ToUpper(h))
+	add("a." + strings.ToUpper(h))
+	add(h + ".")
+	add("a." + h + ".")
+	add("*." + h)
+	add("a.*." + h)
+	add("." + h)
+	add(h + ":443")
+	add(e)
+	add(strings.TrimSpace(e))
+	add(strings.ToLower(e))
+	add("a." + e)
+	for k := 1; k < len(h); k++ {
+		s := h[k:]
+		if s[0] == '.' {
+			add("a" + s)
+			add("evil.a" + s)
+		} else {
+			add(s)
+			add("a." + s)
+		}
+	}
+	for k := 1; k <= 3 && k < len(h); k++ {
+		add(h[:len(h)-k])
+	}
+	var out []string
+	for _, x := range hosts {
+		out = append(out, "https://"+x+"/cb")
+	}
+	out = append(out, "http://"+h+"/cb", "https://"+h+":8443/cb", "https://"+h, "https://"+h+"/cb?x=1", "https://"+h+"/a/../b", "http://a."+h+"/cb", "//"+h+"/cb", e, e+"/cb", strings.TrimSpace(e)+"cb")
+	return out
+}
+
+func c13Parsed(pu *url.URL, perr error) string {
+	if perr != nil {
+		return "None"
+	}
+	return fmt.Sprintf("Some {| scheme := %s; opaque := %s; uhost := %s; rawquery := %s; upath := %s; hostname := %s |}",
+		coqPacked([]byte(pu.Scheme)), coqBool(pu.Opaque != ""), coqPacked([]byte(pu.Host)), coqPacked([]byte(pu.RawQuery)), coqPacked([]byte(pu.Path)), coqPacked([]byte(pu.Hostname())))
 }
 
 func c13URLs(thorough bool) []string {
@@ -126,6 +225,7 @@ func c13URLs(thorough bool) []string {
 	hosts := []string{"example.com", "app.example.com", "evilexample.com", "example.com.evil.com", "example.com.", "app.example.com.", "EXAMPLE.COM", "App.Example.Com",
 		"evil.com", "%65xample.com", "example.com%2eevil.com", "[::1]", "127.0.0.1", "", "xn--exmple-cua.com", "example.comevil.com", "-example.com", ".example.com",
 		"corp.internal", "evilcorp.internal", "a.corp.internal", "example.com\tevil.com", "evil.com#.example.com", "evil.com?.example.com", "evil.com/.example.com", "evil.com\\.example.com", "localhost"}
+	hosts = append(hosts, c13Loopbackish...)
 	ports := []string{"", ":443", ":8443", ":", ":abc", ":0443", ":65536"}
 	pathsL := []string{"", "/", "/cb", "/cb/../x", "/cb/%2e%2e/x", "/..", "/a..b", "/cb;x", "//x", "/\\x", "/cb/..%2fx", "/%2E%2E/", "/./cb", "/cb/...", "/.%2e/x"}
 	// incl. query strings that url.Values parsing drops entirely (bad escapes, semicolons, bare
@@ -138,10 +238,18 @@ func c13URLs(thorough bool) []string {
 		"https://app.example.com%2F@evil.net/cb", "https://app.example.com/cb?next=https://evil.net/", "https://app.example.com/cb/../../other",
 		"https://app.example.com/cb/%2e%2e/%2e%2e/other", "https://evil.com\\@app.example.com/", "https://evil.com\\.example.com/", " https://app.example.com/",
 		"https://app.example.com /", "https://app.example.com\n/", "h\ttps://app.example.com/", "https://app.example.com:443:443/", "https://app.example.com:@evil.com/")
+	// every loopback-looking host with http and https, with and without a port and a path
+	for _, sc := range []string{"http://", "https://", "HTTP://"} {
+		for _, h := range c13Loopbackish {
+			for _, tail := range []string{"/cb", "", ":8080/cb", ":8080"} {
+				out = append(out, sc+h+tail)
+			}
+		}
+	}
 	rng := verifRand()
 	n := 2200
 	if thorough {
-		n = 40000
+		n = 8000 // x 48 clients
 	}
 	pick := func(l []string) string { return l[rng.Intn(len(l))] }
 	for i := 0; i < n; i++ {
@@ -233,30 +341,109 @@ func lastLabelNumeric(h string) bool {
 }
 
 func TestVerif_C13(t *testing.T) {
-	res := newVerifResult("redirect_uri strings from an adversarial URL grammar (scheme x userinfo x host x port x path x query, biased to one defect per URL; 2200 quick / 40000 thorough, plus a fixed list) x 12 client configurations (domains only, patterns only, both, none, leading-dot domain, two domains, empty domain, unanchored pattern, and four with patterns the regexp library refuses: alone, with domains, before and after a usable one); CanRedirectToURL, CorsOriginAllowed, generic CORS check and GET /idp/oauth2/authorize; non-trivial = url.Parse accepted the string with scheme https; distinct by (url, verdict vector)")
-	configs := []c13Config{
-		{"domains", []string{"example.com"}, nil},
-		{"patterns", nil, []string{`^https://[^/@?#\\]*\.example\.com(:[0-9]+)?(/[^?#]*)?$`}},
-		{"both", []string{"example.com"}, []string{`^https://[^/]*\.example\.com`}},
-		{"none", nil, nil},
-		{"leadingdot", []string{".example.com"}, nil},
-		{"two", []string{"corp.internal", "example.com"}, nil},
-		{"emptydomain", []string{""}, nil},
-		{"loosepattern", nil, []string{"localhost"}},
+	res := newVerifResult("redirect_uri strings from an adversarial URL grammar (scheme x userinfo x host x port x path x query, biased to one defect per URL; 2200 quick / 8000 thorough, plus a fixed list) x 12 client configurations x {client with a secret, public client} x {every other client option found by reflection on, off} (domains only, patterns only, both, none, leading-dot domain, two domains, empty domain, unanchored pattern, and four with patterns the regexp library refuses: alone, with domains, before and after a usable one); CanRedirectToURL, CorsOriginAllowed, generic CORS check and GET /idp/oauth2/authorize; non-trivial = url.Parse accepted the string with scheme https; distinct by (url, verdict vector)")
+	baseConfigs := []c13Config{
+		{name: "domains", domains: []string{"example.com"}, patterns: nil},
+		{name: "patterns", domains: nil, patterns: []string{`^https://[^/@?#\\]*\.example\.com(:[0-9]+)?(/[^?#]*)?$`}},
+		{name: "both", domains: []string{"example.com"}, patterns: []string{`^https://[^/]*\.example\.com`}},
+		{name: "none", domains: nil, patterns: nil},
+		{name: "leadingdot", domains: []string{".example.com"}, patterns: nil},
+		{name: "two", domains: []string{"corp.internal", "example.com"}, patterns: nil},
+		{name: "emptydomain", domains: []string{""}, patterns: nil},
+		{name: "loosepattern", domains: nil, patterns: []string{"localhost"}},
 		// patterns the regexp library refuses (PCRE look-around, named group left open, bad repeat): the decision
 		// must be an error whenever such a pattern is met before one that matches, never a fall-back to the domains
-		{"unusable+domains", []string{"example.com"}, []string{`^https://(?!evil)[^/]*\.example\.com/`}},
-		{"unusable-only", nil, []string{`a{2,1}`}},
-		{"unusable-then-good", []string{"example.com"}, []string{`(?<open`, `^https://app\.example\.com(/[^?#]*)?$`}},
-		{"good-then-unusable", []string{"example.com"}, []string{`^https://app\.example\.com(/[^?#]*)?$`, `(?=x)`}},
+		{name: "unusable+domains", domains: []string{"example.com"}, patterns: []string{`^https://(?!evil)[^/]*\.example\.com/`}},
+		{name: "unusable-only", domains: nil, patterns: []string{`a{2,1}`}},
+		{name: "unusable-then-good", domains: []string{"example.com"}, patterns: []string{`(?<open`, `^https://app\.example\.com(/[^?#]*)?$`}},
+		{name: "good-then-unusable", domains: []string{"example.com"}, patterns: []string{`^https://app\.example\.com(/[^?#]*)?$`, `(?=x)`}},
+	}
+	// every configuration for a client with a secret and for a public (secret-less, PKCE) client, each with every
+	// other option of the client record switched on and switched off
+	var configs []c13Config
+	for _, v := range []struct {
+		suffix        string
+		public, knobs bool
+	}{{"", false, true}, {"/public", true, true}, {"/plain", false, false}, {"/public/plain", true, false}} {
+		for _, cf := range baseConfigs {
+			pc := cf
+			pc.name, pc.public, pc.knobs = cf.name+v.suffix, v.public, v.knobs
+			configs = append(configs, pc)
+		}
+	}
+	// clients whose single domain entry is written in an odd form (URL form, upper case, dots, spaces, wildcard)
+	formConfigs := c13FormConfigs()
+	// the other options of the client record are found at run time: every bool field is set to cf.knobs, every
+	// string field other than the id and the secret gets a plausible URL when cf.knobs is set
+	knobValues := func(cl *OpenIDConnectClientConfig, on bool) (bools []bool) {
+		v := reflect.ValueOf(cl).Elem()
+		for i := 0; i < v.NumField(); i++ {
+			f := v.Type().Field(i)
+			switch {
+			case f.Type.Kind() == reflect.Bool:
+				v.Field(i).SetBool(on)
+				bools = append(bools, on)
+			case f.Type.Kind() == reflect.String && f.Name != "ClientID" && f.Name != "ClientSecret" && on:
+				v.Field(i).SetString("https://native.example.net/")
+			}
+		}
+		return
+	}
+	optionsOf := func(cf c13Config) string {
+		var cl OpenIDConnectClientConfig
+		var l []string
+		for _, b := range knobValues(&cl, cf.knobs) {
+			l = append(l, coqBool(b))
+		}
+		return "[" + strings.Join(l, ";") + "]"
+	}
+	clientOf := func(cf c13Config) OpenIDConnectClientConfig {
+		secret := "s3cret"
+		if cf.public {
+			secret = ""
+		}
+		cl := OpenIDConnectClientConfig{}
+		knobValues(&cl, cf.knobs)
+		cl.ClientID, cl.ClientSecret, cl.AllowedRedirectDomains, cl.AllowedRedirectURLRE = cf.name, secret, cf.domains, cf.patterns
+		return cl
 	}
 	env := verifSetup(t, func(c *AppConfigFile, dir string) {
 		c.Base.AllowedAuthBackendsForWebUI = []string{"password"}
 		for _, cf := range configs {
-			c.OpenIDConnectIDP.Client = append(c.OpenIDConnectIDP.Client, OpenIDConnectClientConfig{ClientID: cf.name, ClientSecret: "s3cret",
-				AllowedRedirectDomains: cf.domains, AllowedRedirectURLRE: cf.patterns, AllowClientChosenAudiences: true})
+			c.OpenIDConnectIDP.Client = append(c.OpenIDConnectIDP.Client, clientOf(cf))
+		}
+		for _, cf := range formConfigs {
+			c.OpenIDConnectIDP.Client = append(c.OpenIDConnectIDP.Client, clientOf(cf))
 		}
 	})
+	// every configured domain string of every client (the generic CORS check looks at all of them)
+	var allConfigured []string
+	for _, cf := range configs {
+		allConfigured = append(allConfigured, cf.domains...)
+	}
+	for _, cf := range formConfigs {
+		allConfigured = append(allConfigured, cf.domains...)
+	}
+	// what the loaded state holds per client (compared with the model's loaded_domains of the configured strings)
+	var loaderObs []string
+	for _, cf := range append(append([]c13Config{}, configs...), formConfigs...) {
+		client, err := env.state.idpOpenIDCGetClientConfig(cf.name)
+		if err != nil {
+			t.Fatal(err)
+		}
+		var conf, got []string
+		for _, d := range cf.domains {
+			conf = append(conf, coqPacked([]byte(d)))
+		}
+		for _, d := range client.AllowedRedirectDomains {
+			got = append(got, coqPacked([]byte(d)))
+		}
+		pkce, _ := client.ClientCanDoPKCEAuth()
+		if pkce != cf.public {
+			t.Fatalf("client %s: public=%v but ClientCanDoPKCEAuth=%v", cf.name, cf.public, pkce)
+		}
+		loaderObs = append(loaderObs, fmt.Sprintf("({| rc_public := %s; rc_options := %s; configured_domains := [%s] |}, [%s])", coqBool(cf.public), optionsOf(cf), strings.Join(conf, ";"), strings.Join(got, ";")))
+	}
 	cookie := env.cookie("alice", AuthTypePassword)
 	urls := c13URLs(verifThorough())
 	var cases, idx []string
@@ -295,7 +482,7 @@ func TestVerif_C13(t *testing.T) {
 			verdicts = append(verdicts, obsCoq)
 			remList = append(remList, "["+strings.Join(pres, ";")+"]")
 			corsList = append(corsList, coqBool(cors))
-			cs := map[string]interface{}{"redirect_uri": raw, "client": cf.name}
+			cs := map[string]interface{}{"redirect_uri": raw, "client": cf.name, "public_client": cf.public, "other_options_on": cf.knobs}
 			if ok {
 				anyAllowed = true
 				key := ""
@@ -320,7 +507,7 @@ func TestVerif_C13(t *testing.T) {
 				res.hit(verifHit{Key: "C13:cors:" + cf.name, Oracle: "CORS origin check accepts a foreign origin", What: fmt.Sprintf("client %s accepts origin %q (browser host %q)", cf.name, raw, view.host), Case: cs})
 			}
 			// end to end for a sample
-			if ui < 400 || ok {
+			if ui < 150 || ok {
 				q := url.Values{}
 				q.Set("response_type", "code")
 				q.Set("client_id", cf.name)
@@ -345,7 +532,7 @@ func TestVerif_C13(t *testing.T) {
 			}
 		}
 		generic, _ := env.state.idpOpenIDCGenericIsCorsOriginAllowed(raw)
-		if generic && (!view.ok || view.scheme != "https" || !(domainOK(view.host, []string{"example.com", ".example.com", "corp.internal"}))) {
+		if generic && (!view.ok || view.scheme != "https" || !(domainOK(view.host, allConfigured))) {
 			res.hit(verifHit{Key: "C13:cors:generic", Oracle: "generic CORS origin check accepts a foreign origin", What: fmt.Sprintf("origin %q accepted (browser host %q)", raw, view.host), Case: raw})
 		}
 		nontrivial := perr == nil && pu.Scheme == "https"
@@ -355,13 +542,76 @@ func TestVerif_C13(t *testing.T) {
 		}
 		if perr != nil {
 			res.bump("unparsable")
-			cases = append(cases, fmt.Sprintf("(None, [%s], [%s], [%s], %s)", strings.Join(remList, ";"), strings.Join(verdicts, ";"), strings.Join(corsList, ";"), coqBool(generic)))
-		} else {
-			cases = append(cases, fmt.Sprintf("(Some {| scheme := %s; opaque := %s; uhost := %s; rawquery := %s; upath := %s; hostname := %s |}, [%s], [%s], [%s], %s)",
-				coqPacked([]byte(pu.Scheme)), coqBool(pu.Opaque != ""), coqPacked([]byte(pu.Host)), coqPacked([]byte(pu.RawQuery)), coqPacked([]byte(pu.Path)), coqPacked([]byte(pu.Hostname())),
-				strings.Join(remList, ";"), strings.Join(verdicts, ";"), strings.Join(corsList, ";"), coqBool(generic)))
 		}
+		cases = append(cases, fmt.Sprintf("(%s, [%s], [%s], [%s], %s)", c13Parsed(pu, perr), strings.Join(remList, ";"), strings.Join(verdicts, ";"), strings.Join(corsList, ";"), coqBool(generic)))
 		idx = append(idx, fmt.Sprintf("%q verdicts=%s", raw, strings.Join(verdicts, "")))
+	}
+	// ---- clients whose domain entry is written in an odd form: the validator may match only what was CONFIGURED
+	var fcases, fidx []string
+	for ci, cf := range formConfigs {
+		client, err := env.state.idpOpenIDCGetClientConfig(cf.name)
+		if err != nil {
+			t.Fatal(err)
+		}
+		for ui, raw := range c13FormURLs(cf) {
+			pu, perr := url.Parse(raw)
+			view := whatwg(raw)
+			ok, _, err := client.CanRedirectToURL(raw)
+			obsCoq := "Some " + coqBool(ok)
+			if err != nil {
+				ok = false
+				obsCoq = "None"
+			}
+			cors, _ := client.CorsOriginAllowed(raw)
+			cs := map[string]interface{}{"redirect_uri": raw, "client": cf.name, "configured_domains": cf.domains, "public_client": cf.public, "other_options_on": cf.knobs}
+			if ok {
+				res.bump("form_allowed")
+				key := ""
+				switch {
+				case !view.ok || view.scheme != "https":
+					key = "scheme"
+				case view.query:
+					key = "query"
+				case view.dotdot:
+					key = "dotdot"
+				case !domainOK(view.host, cf.domains):
+					key = "host-not-under-configured-entry"
+				}
+				if key != "" {
+					res.hit(verifHit{Key: "C13:" + key + ":" + cf.form, Oracle: "an accepted redirect host must be one of the client's CONFIGURED allowed_redirect_domains strings or a dot-boundary subdomain of one (https, no query, no parent segment)",
+						What: fmt.Sprintf("client %s configured with %q accepts %q (browser host %q)", cf.name, cf.domains, raw, view.host), Case: cs, Observed: view.host})
+				}
+			}
+			if cors && (!view.ok || view.scheme != "https" || !domainOK(view.host, cf.domains)) {
+				res.hit(verifHit{Key: "C13:cors:" + cf.form, Oracle: "CORS origin check accepts an origin that is not under a configured entry", What: fmt.Sprintf("client %s configured with %q accepts origin %q (browser host %q)", cf.name, cf.domains, raw, view.host), Case: cs})
+			}
+			if ok || ui%8 == 0 {
+				q := url.Values{}
+				q.Set("response_type", "code")
+				q.Set("client_id", cf.name)
+				q.Set("scope", "openid")
+				q.Set("redirect_uri", raw)
+				q.Set("state", "st4te")
+				req := verifNewRequest("GET", idpOpenIDCAuthorizationPath, q)
+				req.AddCookie(cookie)
+				rr, _ := env.serve(req)
+				loc := rr.Header().Get("Location")
+				redirected := rr.Code == 302 && strings.Contains(loc, "code=")
+				res.bump("authorize")
+				if redirected != ok {
+					res.hit(verifHit{Key: "C13:authorize-vs-validator:" + cf.form, Oracle: "authorization endpoint hands out a code although the validator refuses (or vice versa)", What: fmt.Sprintf("client %s redirect_uri %q: validator=%v status=%d", cf.name, raw, ok, rr.Code), Case: cs})
+				}
+				if redirected {
+					lv := whatwg(loc)
+					if !lv.ok || lv.scheme != "https" || !domainOK(lv.host, cf.domains) {
+						res.hit(verifHit{Key: "C13:code-sent-elsewhere:" + cf.form, Oracle: "the Location carrying the code resolves to a host that is not under a configured entry of the client", What: fmt.Sprintf("client %s configured with %q, redirect_uri %q: Location %q -> host %q", cf.name, cf.domains, raw, loc, lv.host), Case: cs})
+					}
+				}
+			}
+			res.eval("form|"+cf.name+"|"+raw+obsCoq, perr == nil && pu.Scheme == "https")
+			fcases = append(fcases, fmt.Sprintf("(%d%%nat, %s, %s, %s)", ci, c13Parsed(pu, perr), obsCoq, coqBool(cors)))
+			fidx = append(fidx, fmt.Sprintf("client=%s public=%v configured_domains=%q redirect_uri=%q verdict=%s cors=%v", cf.name, cf.public, cf.domains, raw, obsCoq, cors))
+		}
 	}
 	// ---- layer B: the Gallina splitter vs net/url.Parse on the conservative grammar
 	var pcases, pidx []string
@@ -391,24 +641,39 @@ func TestVerif_C13(t *testing.T) {
 	var sb strings.Builder
 	sb.WriteString(coqCaseHeader)
 	sb.WriteString("From KM Require Import Base.Cases Model.Redirect Model.UrlSplit.\nOpen Scope N_scope.\n")
-	sb.WriteString("Definition configs : list (list bs * nat) := [")
-	for i, cf := range configs {
-		if i > 0 {
-			sb.WriteString("; ")
-		}
+	coqClient := func(cf c13Config) string {
 		var ds []string
 		for _, d := range cf.domains {
 			ds = append(ds, coqPacked([]byte(d)))
 		}
-		sb.WriteString(fmt.Sprintf("([%s], %d%%nat)", strings.Join(ds, ";"), len(cf.patterns)))
+		return fmt.Sprintf("{| rc_public := %s; rc_options := %s; configured_domains := [%s] |}", coqBool(cf.public), optionsOf(cf), strings.Join(ds, ";"))
 	}
-	sb.WriteString("].\nDefinition all_domains : list bs := flat_map fst configs.\n")
-	sb.WriteString("Fixpoint zip3 {A B : Type} (c : list (list bs * nat)) (r : list A) (o : list B) : list (list bs * nat * A * B) := match c, r, o with x :: c', a :: r', b :: o' => (x, a, b) :: zip3 c' r' o' | _, _, _ => [] end.\n")
+	sb.WriteString("Definition configs : list (rclient * nat) := [")
+	for i, cf := range configs {
+		if i > 0 {
+			sb.WriteString("; ")
+		}
+		sb.WriteString(fmt.Sprintf("(%s, %d%%nat)", coqClient(cf), len(cf.patterns)))
+	}
+	sb.WriteString("].\nDefinition fconfigs : list rclient := [")
+	for i, cf := range formConfigs {
+		if i > 0 {
+			sb.WriteString("; ")
+		}
+		sb.WriteString(coqClient(cf))
+	}
+	sb.WriteString("].\nDefinition all_clients : list rclient := (map fst configs ++ fconfigs)%list.\nDefinition all_domains : list bs := flat_map loaded_domains all_clients.\n")
+	// the loader: what the running state holds per client = the model's loaded_domains of the configured strings
+	sb.WriteString("Definition loader_obs : list (rclient * list bs) := [\n " + strings.Join(loaderObs, ";\n ") + "].\n")
+	sb.WriteString("Fixpoint bsl_eqb (a b : list bs) : bool := match a, b with [], [] => true | x :: a', y :: b' => bs_eqb x y && bsl_eqb a' b' | _, _ => false end.\n")
+	sb.WriteString("Definition loader_bad (c : rclient * list bs) : bool := negb (bsl_eqb (loaded_domains (fst c)) (snd c)).\n")
+	sb.WriteString("Definition c13_loader_mismatches := Eval vm_compute in mismatches loader_bad loader_obs.\nPrint c13_loader_mismatches.\n")
+	sb.WriteString("Fixpoint zip3 {A B : Type} (c : list (rclient * nat)) (r : list A) (o : list B) : list (rclient * nat * A * B) := match c, r, o with x :: c', a :: r', b :: o' => (x, a, b) :: zip3 c' r' o' | _, _, _ => [] end.\n")
 	sb.WriteString("Definition ob_eqb (a b : option bool) : bool := match a, b with Some x, Some y => Bool.eqb x y | None, None => true | _, _ => false end.\n")
-	sb.WriteString("Definition c13_bad (c : option parsed * list (list pres) * list (option bool) * list bool * bool) : bool :=\n  let '(p, res, obs, cors, generic) := c in\n  negb (Nat.eqb (length res) (length configs)) || negb (Nat.eqb (length obs) (length configs))\n  || negb (forallb (fun x : list bs * nat * list pres * option bool => let '(cfg, pats, o) := x in Nat.eqb (length pats) (snd cfg) && ob_eqb (can_redirect_p (fst cfg) pats p) o) (zip3 configs res obs))\n  || negb (forallb (fun x : list bs * nat * list pres * bool => let '(cfg, _, o) := x in Bool.eqb (cors_allowed (fst cfg) p) o) (zip3 configs res cors))\n  || negb (Bool.eqb (cors_allowed all_domains p) generic).\n")
+	sb.WriteString("Definition c13_bad (c : option parsed * list (list pres) * list (option bool) * list bool * bool) : bool :=\n  let '(p, res, obs, cors, generic) := c in\n  negb (Nat.eqb (length res) (length configs)) || negb (Nat.eqb (length obs) (length configs))\n  || negb (forallb (fun x : rclient * nat * list pres * option bool => let '(cfg, pats, o) := x in Nat.eqb (length pats) (snd cfg) && ob_eqb (can_redirect_c (fst cfg) pats p) o) (zip3 configs res obs))\n  || negb (forallb (fun x : rclient * nat * list pres * bool => let '(cfg, _, o) := x in Bool.eqb (cors_allowed_c (fst cfg) p) o) (zip3 configs res cors))\n  || negb (Bool.eqb (cors_allowed all_domains p) generic).\n")
 	// the property predicate on the observation (round-2 rule): the implementation ALLOWS a redirect / an origin
 	// that the specification (the model, which provably satisfies C13) refuses — such a case is a failing input
-	sb.WriteString("Definition c13_viol (c : option parsed * list (list pres) * list (option bool) * list bool * bool) : bool :=\n  let '(p, res, obs, cors, generic) := c in\n  existsb (fun x : list bs * nat * list pres * option bool => let '(cfg, pats, o) := x in match o with Some true => negb (ob_eqb (can_redirect_p (fst cfg) pats p) (Some true)) | _ => false end) (zip3 configs res obs)\n  || existsb (fun x : list bs * nat * list pres * bool => let '(cfg, _, o) := x in o && negb (cors_allowed (fst cfg) p)) (zip3 configs res cors)\n  || (generic && negb (cors_allowed all_domains p)).\n")
+	sb.WriteString("Definition c13_viol (c : option parsed * list (list pres) * list (option bool) * list bool * bool) : bool :=\n  let '(p, res, obs, cors, generic) := c in\n  existsb (fun x : rclient * nat * list pres * option bool => let '(cfg, pats, o) := x in match o with Some true => negb (ob_eqb (can_redirect_c (fst cfg) pats p) (Some true)) | _ => false end) (zip3 configs res obs)\n  || existsb (fun x : rclient * nat * list pres * bool => let '(cfg, _, o) := x in o && negb (cors_allowed_c (fst cfg) p)) (zip3 configs res cors)\n  || (generic && negb (cors_allowed all_domains p)).\n")
 	// sharded: one list literal of tens of thousands of records overflows coqc's stack (thorough tier)
 	const c13Shard = 2000
 	var mparts, lparts, vparts []string
@@ -423,6 +688,28 @@ func TestVerif_C13(t *testing.T) {
 		vparts = append(vparts, fmt.Sprintf("mismatches_from c13_viol %s %d", name, i))
 		lparts = append(lparts, "length "+name)
 	}
+	sb.WriteString("Definition dflt_client : rclient := {| rc_public := false; rc_options := []; configured_domains := [] |}.\n")
+	sb.WriteString("Definition c13_form_bad (c : nat * option parsed * option bool * bool) : bool :=\n  let '(i, p, obs, cors) := c in let cl := nth i fconfigs dflt_client in\n  negb (Nat.ltb i (length fconfigs)) || negb (ob_eqb (can_redirect_c cl [] p) obs) || negb (Bool.eqb (cors_allowed_c cl p) cors).\n")
+	sb.WriteString("Definition c13_form_viol (c : nat * option parsed * option bool * bool) : bool :=\n  let '(i, p, obs, cors) := c in let cl := nth i fconfigs dflt_client in\n  match obs with Some true => negb (ob_eqb (can_redirect_c cl [] p) (Some true)) | _ => false end || (cors && negb (cors_allowed_c cl p)).\n")
+	var fm, fv []string
+	for i := 0; i < len(fcases); i += c13Shard {
+		end := i + c13Shard
+		if end > len(fcases) {
+			end = len(fcases)
+		}
+		name := fmt.Sprintf("fcases%d", i/c13Shard)
+		sb.WriteString("Definition " + name + " : list (nat * option parsed * option bool * bool) := [\n " + strings.Join(fcases[i:end], ";\n ") + "].\n")
+		fm = append(fm, fmt.Sprintf("mismatches_from c13_form_bad %s %d", name, i))
+		fv = append(fv, fmt.Sprintf("mismatches_from c13_form_viol %s %d", name, i))
+		lparts = append(lparts, "length "+name)
+	}
+	sb.WriteString("Definition c13_form_mismatches := Eval vm_compute in (" + strings.Join(fm, " ++ ") + ")%list.\nPrint c13_form_mismatches.\nDefinition c13_form_violating := Eval vm_compute in (" + strings.Join(fv, " ++ ") + ")%list.\nPrint c13_form_violating.\n")
+	ioutil.WriteFile(filepath.Join(verifOut(), "CasesC13forms.idx"), []byte(strings.Join(fidx, "\n")), 0644)
+	var lidx []string
+	for _, cf := range append(append([]c13Config{}, configs...), formConfigs...) {
+		lidx = append(lidx, fmt.Sprintf("client=%s public=%v configured_domains=%q", cf.name, cf.public, cf.domains))
+	}
+	ioutil.WriteFile(filepath.Join(verifOut(), "CasesC13loader.idx"), []byte(strings.Join(lidx, "\n")), 0644)
 	var pm, pa []string
 	for i := 0; i < len(pcases); i += c13Shard {
 		end := i + c13Shard
